@@ -86,6 +86,9 @@ fn handle(job: &Value, scratch: &PathBuf) -> Value {
     if let Some(seed) = job["relayout"].as_u64() {
         src = relayout(&src, seed);
     }
+    if let Some(seed) = job["mutate"].as_u64() {
+        src = mutate(&src, seed);
+    }
     let name = job["name"].as_str().unwrap_or("input.rs");
     let path = scratch.join(name);
     if let Some(parent) = path.parent() {
@@ -978,4 +981,74 @@ fn ledger_tokens(a: &[String], b: &[String]) -> Value {
         }
     }
     json!({"parsed_in": true, "parsed_out": true, "edits": edits, "n_tokens": n})
+}
+
+
+/// Token-level mutation (C16): deletion, duplication, swapping of tokens, truncation,
+/// delimiter imbalance, non-ASCII insertion -- 1..3 edits chosen by the seed.
+fn mutate(text: &str, seed: u64) -> String {
+    use rustc_lexer::TokenKind as T;
+    let mut rng = seed.wrapping_mul(0x9E37_79B9_7F4A_7C15) | 1;
+    let mut next = move || {
+        rng ^= rng << 13;
+        rng ^= rng >> 7;
+        rng ^= rng << 17;
+        rng
+    };
+    let mut toks: Vec<String> = vec![];
+    let mut pos = 0usize;
+    for tok in rustc_lexer::tokenize(text) {
+        toks.push(text[pos..pos + tok.len as usize].to_owned());
+        let _ = matches!(tok.kind, T::Whitespace);
+        pos += tok.len as usize;
+    }
+    if toks.is_empty() {
+        return "}".to_owned();
+    }
+    let sig: Vec<usize> = (0..toks.len()).filter(|&i| !toks[i].trim().is_empty()).collect();
+    if sig.is_empty() {
+        return text.to_owned();
+    }
+    let n_edits = 1 + (next() % 3) as usize;
+    for _ in 0..n_edits {
+        if toks.is_empty() {
+            break;
+        }
+        let k = sig[(next() % sig.len() as u64) as usize].min(toks.len() - 1);
+        match next() % 8 {
+            0 => {
+                toks.remove(k);
+            }
+            1 => {
+                let t = toks[k].clone();
+                toks.insert(k, t);
+            }
+            2 => {
+                let j = sig[(next() % sig.len() as u64) as usize].min(toks.len() - 1);
+                toks.swap(k, j);
+            }
+            3 => {
+                toks.truncate(k);
+            }
+            4 => {
+                let d = ["(", ")", "{", "}", "[", "]", "<", ">"][(next() % 8) as usize];
+                toks.insert(k, d.to_owned());
+            }
+            5 => {
+                let u = ["\u{00e9}", "\u{4e16}", "\u{1F98A}", "\u{200b}", "\u{0301}", "\t"][(next() % 6) as usize];
+                toks.insert(k, u.to_owned());
+            }
+            6 => {
+                // unbalance: drop the next closing delimiter
+                if let Some(j) = (k..toks.len()).find(|&j| matches!(toks[j].as_str(), ")" | "}" | "]")) {
+                    toks.remove(j);
+                }
+            }
+            _ => {
+                let kw = ["fn", "impl", "where", "=>", "::", "'a", "unsafe", "match", "|", "&&", "r#", "\""][(next() % 12) as usize];
+                toks.insert(k, format!(" {kw} "));
+            }
+        }
+    }
+    toks.concat()
 }
